@@ -85,8 +85,37 @@ def groupFields : List (Bytes × Bytes) → Hdr
     let ck := canon k
     (ck, v :: lookup g ck) :: g.filter fun kv => kv.1 != ck
 
-def wireHeader (fields : List (Bytes × Bytes)) : Hdr :=
-  groupFields (fields.filter fun f => canon f.1 != kHost)
+def kPragma : Bytes := [80, 114, 97, 103, 109, 97]
+def kCacheControl : Bytes := [67, 97, 99, 104, 101, 45, 67, 111, 110, 116, 114, 111, 108]
+def sNoCache : Bytes := [110, 111, 45, 99, 97, 99, 104, 101]
+
+/-- how the forwarded request is framed (decided by `readTransfer` from the wire fields) -/
+inductive Framing where
+  | none | cl (n : Nat) | chunked
+  deriving Repr, BEq
+
+/-- what `ReadRequest` leaves in the header map: Host moved out; `fixPragmaCacheControl` (Pragma: no-cache adds
+    Cache-Control: no-cache when absent); `fixTransferEncoding` (Transfer-Encoding deleted; chunked also deletes
+    Content-Length); `fixTrailer` (a non-empty Trailer is deleted).  `none` = a shape this model does not cover
+    (Transfer-Encoding other than the single value `chunked`, non-numeric or differing Content-Length). -/
+def wireHeader (fields : List (Bytes × Bytes)) : Option (Hdr × Framing) :=
+  let h0 := groupFields (fields.filter fun f => canon f.1 != kHost)
+  let h1 := if getFirst h0 kPragma == sNoCache && !(h0.any fun kv => kv.1 == kCacheControl)
+            then h0 ++ [(kCacheControl, [sNoCache])] else h0
+  let te := lookup h1 kTransferEncoding
+  let cls := lookup h1 kContentLength
+  let dropTrailer := fun (h : Hdr) => if (getFirst h kTrailer).isEmpty then h else h.filter fun kv => kv.1 != kTrailer
+  if !te.isEmpty then
+    if te.map (fun v => (trimOWS v).map lower) != [sChunked] then none
+    else some (dropTrailer (h1.filter fun kv => kv.1 != kTransferEncoding && kv.1 != kContentLength), .chunked)
+  else
+    match cls with
+    | [] => some (dropTrailer h1, .none)
+    | c :: more =>
+      if !(more.all fun v => trimOWS v == trimOWS c) then none
+      else match decVal (trimOWS c) with
+        | some n => some (dropTrailer h1, if n == 0 then .none else .cl n)
+        | none => none
 
 /-- `exclude[k]` of `Request.write`, from THIS property's regenerated copy of the table (so that a C26
     check never reads a stale Generated/C25.lean) -/
@@ -99,10 +128,15 @@ def outFields (h : Hdr) : List (Bytes × Bytes) :=
 /-- the bytes `Request.Write` produces for the fixed request shape of the C26 harness
     (`GET /`, Host `a`, body at EOF): request line, Host, `Content-Length: 0` when the client sent a
     non-empty Content-Length, the surviving client fields, empty line. -/
-def writeHop (h : Hdr) : Bytes :=
-  joinLines ([sGET ++ [32, 47, 32] ++ sHTTP11, sHostPfx ++ [97]] ++
-    (if (getFirst h kContentLength).isEmpty then [] else [sCLPfx ++ [48]]) ++
+def writeHopF (method : Bytes) (fr : Framing) (h : Hdr) : Bytes :=
+  joinLines ([method ++ [32, 47, 32] ++ sHTTP11, sHostPfx ++ [97]] ++
+    (match fr with
+     | .cl n => [sCLPfx ++ toDec n]
+     | .chunked => [sTEChunked]
+     | .none => if (getFirst h kContentLength).isEmpty then [] else [sCLPfx ++ [48]]) ++
     (outFields h).map fun f => f.1 ++ [58, 32] ++ f.2) ++ crlf
+
+def writeHop (h : Hdr) : Bytes := writeHopF sGET .none h
 
 /-- what the proxy forwards of a client header map -/
 def forwarded (h : Hdr) : List (Bytes × Bytes) :=
